@@ -1392,6 +1392,8 @@ def subst_tree(t, slot, env0):
         dv = env0["__decl__"].get(t[1])
         if dv is not None and dv["k"] == "exp":
             return subst_tree(dv["e"], slot, env0)
+        if env0.get("__roots__"):
+            return t                                  # only dependent parameters are unfolded (down to the root parameters)
         if key not in env0:
             raise NoEncoding()
         return ["c", fs(env0[key])]
@@ -1533,7 +1535,8 @@ def encode_(case, res, history):
                         tg = TAGS.get(o["attrs"][a]["tag"], "GList")
                     elif d["k"] == "exp":
                         term = "DExp %s" % cq_tree_(d["e"], slot)
-                        if not subst or (not has_param(subst_tree(d["e"], final_slot, env_f)) and scalar_params_only(d["e"])):
+                        if not subst or (not has_param(subst_tree(d["e"], final_slot, env_f))
+                                         and scalar_params_only(subst_tree(d["e"], {}, {"__decl__": decls, "__roots__": True}))):
                             # symbolic (MX) without substitution; a Python number of the variable's type when the
                             # substitution made it constant.  (In between CasADi may or may not fold 0*x, and an
                             # element pa[k] of a substituted array parameter is not folded to a constant.)
